@@ -588,7 +588,8 @@ int main(int argc, char **argv)
     if(is_bfs_shard && mode != "A") {
         vp::bound("partB_granularity", "scheduling points: every load of an index the other thread writes and every index store; own-index loads, ring memcpy and length scan are executed inside the step and still checked by the race detector and the region invariant (argument in the source)");
         std::vector<BRing> rings = {{8, 2}};
-        if(T) { rings.push_back({8, 3}); rings.push_back({12, 2}); rings.push_back({8, 4}); rings.push_back({12, 3}); rings.push_back({16, 2}); }
+        // (measured: 8x3 reaches its fixpoint at 6e5 states; 12x2 has more than 1e7 states and is explored to the deadline)
+        if(T) { rings.push_back({8, 3}); rings.push_back({12, 2}); }
         std::string done;
         for(auto &rg : rings) {
             if(vp::replaying() && false) break;
@@ -618,9 +619,14 @@ int main(int argc, char **argv)
     if(ext_flag && !T) return vp::finish();       // the extended pass exists in the thorough tier only
     const bool EXT = ext_flag;
     std::vector<BRing> rings = {{16, 2}, {16, 3}};
-    if(EXT) { rings.push_back({24, 2}); rings.push_back({32, 2}); }
+    if(EXT) { rings = {{16, 2}, {24, 2}}; }
     const int maxw = EXT ? 3 : 2, maxr = EXT ? 3 : 2, maxbound = EXT ? 2 : (T ? 3 : 2);
     std::vector<std::vector<int>> wprogs, rprogs;
+    if(EXT) {
+        // the core pass has every program of up to 2 operations; here: all programs of exactly 3 over 4 kinds
+        static const int K4[4] = {W_SMALL, W_BIG, W_OVER, W_RAW};
+        for(int a = 0; a < 4; ++a) for(int b = 0; b < 4; ++b) for(int c = 0; c < 4; ++c) wprogs.push_back({K4[a], K4[b], K4[c]});
+    } else
     for(int len = 1; len <= maxw; ++len) { std::vector<int> p(len, 0); while(true) { wprogs.push_back(p); int k = len - 1; while(k >= 0 && ++p[k] == W_KINDS) p[k--] = 0; if(k < 0) break; } }
     for(int len = 1; len <= maxr; ++len) { std::vector<int> p(len, 0); while(true) { rprogs.push_back(p); int k = len - 1; while(k >= 0 && ++p[k] == 2) p[k--] = 0; if(k < 0) break; } }
     std::vector<Instance> insts;
@@ -635,8 +641,8 @@ int main(int argc, char **argv)
     }
     const std::string PA = EXT ? "partA_ext_" : "partA_";
     vp::bound(PA + "instances", (long long)insts.size());
-    vp::bound(PA + "programs", "writer: 1.." + std::to_string(maxw) + " ops over {write12, write20, writeMaxMsg, write>MaxMsg, writeArray12, raw_write12, raw_write>MaxMsg}; reader: 1.." + std::to_string(maxr) + " rounds over {if(hasNext)read, if(hasNextLookahead)read_lookahead}");
-    vp::bound(PA + "rings", EXT ? "16x2 16x3 24x2 32x2" : "16x2 16x3");
+    vp::bound(PA + "programs", std::string(EXT ? "writer: all programs of exactly 3 ops over {write12, writeMaxMsg, write>MaxMsg, raw_write12}" : "writer: 1.." + std::to_string(maxw) + " ops over {write12, write20, writeMaxMsg, write>MaxMsg, writeArray12, raw_write12, raw_write>MaxMsg}") + "; reader: 1.." + std::to_string(maxr) + " rounds over {if(hasNext)read, if(hasNextLookahead)read_lookahead}");
+    vp::bound(PA + "rings", EXT ? "16x2 24x2" : "16x2 16x3");
     vp::bound(PA + "start_states", "ring pre-rotated to start offsets (multiples of 4) and pre-filled with 0..2 messages");
     int completed_bound = -1;
     std::vector<uint64_t> per_k(8, 0);
